@@ -31,7 +31,7 @@ def cast(X, dtype):
 
 @st.composite
 def grad_case(draw, classes=None):
-    s = draw(E.est_spec(classes=classes, n_max=10, iter_max=3, k_max=4))
+    s = draw(E.est_spec(classes=classes, n_max=10, iter_max=3, k_max=4, xkinds=("normal", "grid", "scaled", "huge")))
     return {"spec": s, "dtype": draw(st.sampled_from(["float64", "float64", "float32", "int64"]))}
 
 
